@@ -14,7 +14,7 @@ CONSTANTS Tier, CheckRefinement
 
 J == "application/json"
 X == "application/xml"
-V == "application/vnd.x+json"
+V == "application/vnd.Acme.X+json"
 C == "text/x-custom"
 Builtin == {J, X}
 AllReg == {J, X, V, C}
